@@ -87,6 +87,7 @@ def gen_world(rng: SimRandom) -> dict:
         'step_bound': rng.pick([0.22, 0.22, 0.22, 0.45]),
         'huge': huge,
         'site_props': rng.chance(0.3),
+        'array_metadata': rng.chance(0.25),
     }
 
 
@@ -146,6 +147,10 @@ def build_root(w: dict, mode: str, idx: int):
     md = {'temperature': w['temperature'], 'tag': f'root{idx}'}
     if idx % 2:
         md[f'extra{idx % 7}'] = idx  # roots of one system do not all have the same metadata keys
+    if w.get('array_metadata'):
+        # array-valued annotations whose lengths happen to coincide with the number of frames / atoms / 3
+        md['series'] = np.arange(w['nf'], dtype=float) * 0.5
+        md['aux'] = {'per_atom': np.arange(w['na']), 'matrix': np.arange(9.0).reshape(3, 3), 'voigt': np.arange(6.0)}
     kw = dict(species=make_species(w), lattice=L, time_step=w['time_step'], metadata=md)
     sp_model = None
     if w.get('site_props'):
@@ -166,7 +171,7 @@ def build_root(w: dict, mode: str, idx: int):
         raise HarnessError(mode)
     if mode == 'disp_nobase':
         return T, {'S': steps.copy(), 'P': np.mod(unwrapped, 1.0), 'species': [str(s) for s in kw['species']], 'symbols': list(w['species']),
-                   'lattice': np.array(L.matrix), 'time_step': w['time_step'], 'metadata': dict(md), 'idx': idx, 'site_props': sp_model}
+                   'lattice': np.array(L.matrix), 'time_step': w['time_step'], 'metadata': md_copy(md), 'idx': idx, 'site_props': sp_model}
     model = {
         'B': np.array(T.base_positions, dtype=float, copy=True),
         'P': np.mod(unwrapped, 1.0),
@@ -174,7 +179,7 @@ def build_root(w: dict, mode: str, idx: int):
         'symbols': list(w['species']),
         'lattice': np.array(L.matrix),
         'time_step': w['time_step'],
-        'metadata': dict(md),
+        'metadata': md_copy(md),
         'site_props': sp_model,  # constant per-atom properties (dict of lists), None, or 'any' (not pinned down for this object)
     }
     return T, model
@@ -220,7 +225,7 @@ def twin_of(model: dict, w: dict):
     if isinstance(model.get('site_props'), dict):
         extra['site_properties'] = {k: list(v) for k, v in model['site_props'].items()}
     return Trajectory(species=sp, coords=coords, lattice=Lattice(model['lattice']), time_step=model['time_step'],
-                      metadata=dict(model['metadata']), **extra)
+                      metadata=md_copy(model['metadata']), **extra)
 
 
 def ambiguous_steps(model: dict) -> bool:
@@ -235,6 +240,27 @@ def ambiguous_steps(model: dict) -> bool:
 
 # ---------------------------------------------------------------------------
 # non-mutating observation of a trajectory
+
+
+def md_equal(a, b) -> bool:
+    """Equality of metadata values (numbers, strings, numpy arrays, nested dicts / lists)."""
+    if isinstance(a, np.ndarray) or isinstance(b, np.ndarray):
+        return isinstance(a, np.ndarray) and isinstance(b, np.ndarray) and a.shape == b.shape and bool(np.array_equal(a, b))
+    if isinstance(a, dict) or isinstance(b, dict):
+        return isinstance(a, dict) and isinstance(b, dict) and a.keys() == b.keys() and all(md_equal(a[k], b[k]) for k in a)
+    if isinstance(a, (list, tuple)) or isinstance(b, (list, tuple)):
+        return type(a) is type(b) and len(a) == len(b) and all(md_equal(x, y) for x, y in zip(a, b))
+    return a == b
+
+
+def md_copy(a):
+    if isinstance(a, np.ndarray):
+        return a.copy()
+    if isinstance(a, dict):
+        return {k: md_copy(v) for k, v in a.items()}
+    if isinstance(a, (list, tuple)):
+        return type(a)(md_copy(v) for v in a)
+    return a
 
 
 def raw_positions(T) -> np.ndarray:
@@ -453,7 +479,7 @@ class Run:
             self.violation('lattice_changed', f'{e.name} ({why}): lattice differs from model', sig)
         if T.time_step != M['time_step']:
             self.violation('time_step_changed', f'{e.name} ({why}): time_step {T.time_step} != {M["time_step"]}', sig)
-        if dict(T.metadata) != M['metadata']:
+        if not md_equal(dict(T.metadata), M['metadata']):
             self.violation('metadata_changed', f'{e.name} ({why}): metadata {T.metadata} != {M["metadata"]}', sig)
         want = M.get('site_props')
         if want != 'any':
@@ -482,7 +508,7 @@ class Run:
         if not ok:
             self.violation('positions_changed', f'{e.name} ({why}): a displacement-only trajectory (no base positions) no longer holds its displacements '
                            f'(flag {T.coords_are_displacement}, base {"set" if T.base_positions is not None else "None"})', sig)
-        if [str(s) for s in T.species] != M['species'] or dict(T.metadata) != M['metadata'] or T.time_step != M['time_step']:
+        if [str(s) for s in T.species] != M['species'] or not md_equal(dict(T.metadata), M['metadata']) or T.time_step != M['time_step']:
             self.violation('metadata_changed', f'{e.name} ({why}): species/metadata/time step of a displacement-only trajectory changed', sig)
 
     def nobase_twin(self, e: Entry):
@@ -631,7 +657,7 @@ class Run:
         return None, None
 
     def add_entry(self, name, T, M, parent: Entry, origin):
-        M = dict(M, P=np.array(M['P'], copy=True), metadata=dict(M['metadata']))
+        M = dict(M, P=np.array(M['P'], copy=True), metadata=md_copy(M['metadata']))
         B = np.array(T.base_positions, dtype=float, copy=True)
         if 'B_expected' in M:
             if B.shape != M['B_expected'].shape or not np.allclose(B, M['B_expected'], rtol=0, atol=1e-9):
@@ -667,7 +693,7 @@ class Run:
             except Exception as ex:  # noqa: BLE001
                 self.violation('derive_raised', f'{how}({arg!r}) on {e.name} raised {type(ex).__name__}: {ex}', {'how': how})
             self.add_entry(name, new, M2, e, how)
-            if how != 'filter' and new.metadata != e.M['metadata']:
+            if how != 'filter' and not md_equal(dict(new.metadata), e.M['metadata']):
                 self.violation('metadata_changed', f'{how} dropped or changed metadata', {'how': how})
         elif how == 'intidx':
             n = len(e.M['P'])
@@ -766,7 +792,7 @@ class Run:
     def op_extend(self, op):
         a = self.pool.get(op['obj'])
         b = self.pool.get(op['other'])
-        if a is None or b is None or a is b or a.kind != 'traj' or b.kind != 'traj' or a.sys != b.sys:
+        if a is None or b is None or a.kind != 'traj' or b.kind != 'traj' or a.sys != b.sys:
             return self.trace.log(ev='EXTEND', step=self.step, skipped=True)
         self.cur = a.sys
         if a.M['species'] != b.M['species'] or a.M['time_step'] != b.M['time_step'] or len(a.M['P']) + len(b.M['P']) > 700:
@@ -790,7 +816,7 @@ class Run:
         # which metadata the extended trajectory carries is not pinned down beyond "its own stay": it must keep every old key with
         # its old value (a merge into a NEW dict is tolerated and adopted by the model); everybody else must be exactly unchanged
         md = dict(a.T.metadata)
-        if md != a.M['metadata'] and all(k in md and md[k] == v for k, v in a.M['metadata'].items()):
+        if not md_equal(md, a.M['metadata']) and all(k in md and md_equal(md[k], v) for k, v in a.M['metadata'].items()):
             shared = [x.name for x in self.pool.values() if x is not a and x.kind == 'traj' and x.T.metadata is a.T.metadata]
             if not shared:
                 a.M = dict(a.M, metadata=md)
